@@ -96,7 +96,7 @@ m = {
  "engines": [
   {"name": "ipt-verif", "path": "/verif/harness", "serves_properties": sorted(T),
    "kind_free_text": "Rust binary using proptest 1.11 as a library (TestRunner, fixed seeds from VERIF_SEED, 16 shards, shrinking -> JSON replay files) plus enumerated sub-spaces; independent oracles in src/oracle"},
-  {"name": "cargo-fuzz targets", "path": "/verif/fuzz", "serves_properties": ["C07", "C18"],
+  {"name": "cargo-fuzz targets", "path": "/verif/harness/fuzz", "serves_properties": ["C07", "C18"],
    "kind_free_text": "libFuzzer targets with the oracle inside the target; used by the thorough tier only"}
  ],
  "checks": checks,
